@@ -337,7 +337,11 @@ func call(v *VM, ft *funcT, xArgs, xRets int) {
 	end := len(v.stack) - len(varArgs)
 	copy(varArgs, v.stack[end:])
 	v.stack = v.stack[:end]
-	v.stack = append(v.stack, NewSlice(ft.VariadicType.value(), varArgs))
+	if nVarArgs == 0 { // no arguments for the variadic parameter: it is the nil slice
+		v.stack = append(v.stack, Value{t: ft.VariadicType})
+	} else {
+		v.stack = append(v.stack, NewSlice(ft.VariadicType.value(), varArgs))
+	}
 	xArgs = xArgs - len(varArgs) + 1
 	callReady(v, ft, xArgs, xRets)
 }
